@@ -136,6 +136,8 @@ Definition enc_words (o : option (list Z)) : list Z := match o with Some ws => 1
 Definition enc_runs (o : option (list (Z * Z))) : list Z :=
   match o with Some rs => 1 :: flat_map (fun r => [fst r; snd r]) rs | None => [0] end.
 Definition enc_opt (o : option Z) : list Z := match o with Some v => [1; v] | None => [0] end.
+Definition enc_full (o : option (list (Z * Z) * list Z)) : list Z :=
+  match o with Some (rs, ws) => 1 :: flat_map (fun r => [fst r; snd r]) rs ++ (-1) :: ws | None => [0] end.
 """
 
 
@@ -160,7 +162,7 @@ def listing_correspondence(ctx, res, cases):
     terms, metas = [], []
     dist = res["distribution"]
     dist.update({"listings": 0, "listing_cells_max": 0, "hex_lines": 0})
-    for text, big, ds, words, cells in cases:
+    for text, big, ds, words, cells, full_txt in cases:
         code_txt = real_listing(text, big, "--code")
         data_txt = real_listing(text, big, "--data")
         if code_txt is None or data_txt is None:
@@ -171,8 +173,10 @@ def listing_correspondence(ctx, res, cases):
         cz = zlist([ord(c) for c in code_txt])
         dz = zlist([ord(c) for c in data_txt])
         terms += ["code_listing %s" % zlist(words), "data_listing %s %s" % (z(ds), zlist(cells)),
-                  "enc_words (read_code %s)" % cz, "enc_runs (read_image %s)" % dz]
-        metas.append((text, big, ds, words, cells, code_txt, data_txt))
+                  "enc_words (read_code %s)" % cz, "enc_runs (read_image %s)" % dz,
+                  "full_listing %s %s %s" % (z(ds), zlist(cells), zlist(words)),
+                  "enc_full (read_full %s)" % zlist([ord(c) for c in full_txt])]
+        metas.append((text, big, ds, words, cells, code_txt, data_txt, full_txt))
     hexlines = []
     for _ in range(300):
         n = rng.choice([1, 1, 2, 3, 4, 4, 4, 5, 6])
@@ -184,9 +188,9 @@ def listing_correspondence(ctx, res, cases):
     outs = coqrun.eval_cases("C06l", LISTING_HEADER, terms, shard=200)
     agree = 0
     k = 0
-    for text, big, ds, words, cells, code_txt, data_txt in metas:
-        mc, md, rc, ri = outs[k:k + 4]
-        k += 4
+    for text, big, ds, words, cells, code_txt, data_txt, full_txt in metas:
+        mc, md, rc, ri, mf, rf = outs[k:k + 6]
+        k += 6
         ok = True
         if mc != [ord(c) for c in code_txt] and words:
             ok = False
@@ -209,6 +213,16 @@ def listing_correspondence(ctx, res, cases):
             res["spec_failures"].append({"what": "the printed data image does not read back (n*0 = n zero cells, then one "
                                                  "hexadecimal cell per line) as data_start-1 zeroes, the next free cell and the "
                                                  "data cells", "program": text, "big_stack": big, "printed": data_txt[:200]})
+        if mf != [ord(c) for c in full_txt]:
+            ok = False
+            res["disagreements"].append({"what": "whole --stdout text: Model/Listing.full_listing differs from the printed text",
+                                         "program": text, "big_stack": big, "printed": full_txt[:300],
+                                         "model": "".join(map(chr, mf))[:300]})
+        if words and rf != want + [-1] + words:
+            ok = False
+            res["spec_failures"].append({"what": "the text of `hera assemble --stdout` does not read back ([DATA] section as a Logisim "
+                                                 "image, [CODE] section one word per line) as the data image and the assembled words",
+                                         "program": text, "big_stack": big, "printed": full_txt[:300]})
         agree += ok
     for h, o in zip(hexlines, outs[k:]):
         strict = h != "" and all(c in "0123456789abcdefABCDEF" for c in h)
@@ -217,6 +231,7 @@ def listing_correspondence(ctx, res, cases):
             res["disagreements"].append({"what": "Model/Listing.parse_hex differs from int(line, 16) on a line of hex digits",
                                          "line": h, "model": o, "impl": want})
     res["listing_agree"] = agree
+    dist["listing_agree"] = agree
 
 
 def real_run(text, big):
@@ -310,7 +325,7 @@ def correspondence(ctx, model_available=True):
         terms.append("enc_wrun (wrun %d %s (image_state %s %s %s))" % (THROTTLE, zlist(asm["words"]), cfg, z(ds), zlist(cells)))
         metas.append((text, big, run, ds, len(cells)))
         if len(listing_cases) < (40 if quick else 400):
-            listing_cases.append((text, big, ds, asm["words"], cells))
+            listing_cases.append((text, big, ds, asm["words"], cells, asm["text"][:-1] if asm["text"].endswith("\n") else asm["text"]))
         if len(asm["words"]) > 2:
             nontrivial.add(text)
     res["cases"] = len(progs)
@@ -342,7 +357,7 @@ def correspondence(ctx, model_available=True):
                    "source; registers, flags, memory, halt status and pc are compared. Also: adding debugging ops "
                    "leaves the assembler output byte-identical; disassembling the emitted words and re-assembling "
                    "gives the same words. The text of `--stdout --code` and `--stdout --data` is compared character by character "
-                   "with Model/Listing.v and read back by its strict reader. Non-trivial: more than two instructions; distinct by text."
+                   "with Model/Listing.v and read back by its strict reader, and so is the whole two-section `--stdout` text. Non-trivial: more than two instructions; distinct by text."
                    % (THROTTLE, THROTTLE))
     res["samples"] = [{"program": progs[0][0], "big_stack": progs[0][1]}]
     return res
